@@ -836,8 +836,11 @@ def mm_replay(chk, h0, steps):
             elif kind == "commute":
                 res = do_commute(x, y, term_resolved=bool(st["flag"]))
             elif kind == "roundtrip":
-                new = MultiformOperator.from_qubitop(x.qubitoperator, NQ)
+                from tangelo.toolboxes.operators import QubitOperator
+                q = x.qubitoperator
+                new = MultiformOperator.from_qubitop(q, NQ)
                 new.compress(n_qubits=NQ)
+                q += QubitOperator((), 7.0)          # the operator handed out is a copy: scribbling on it must not reach x (or new)
                 heap[st["r"]] = new
             elif kind == "kernel":
                 res = x.get_kernel()
@@ -889,7 +892,9 @@ def mm_replay(chk, h0, steps):
     return done
 
 
-def run_machine(chk):
+def machine_start(chk):
+    """Starts the TLC runs of the state machine in the background; returns a handle for machine_finish."""
+    import concurrent.futures as cf
     quick = chk.quick
     runs = [dict(tag="mm_d2", cfg=mm_cfg(2, "ValsMAll", "ValsSAll", tg="TargetsP" if quick else "TargetsAll"), workers=4),
             dict(tag="mm_sim", cfg=mm_cfg(8, "ValsMAll", "ValsSAll", sc="ScalarsAll", tg="TargetsAll", mt=12, bound=4096), workers=1,
@@ -899,7 +904,13 @@ def run_machine(chk):
     jobs = [dict(module="C16MultiformMachine", cfg=r["cfg"], name=WD + "/" + r["tag"], workers=r["workers"], simulate=r.get("simulate"),
                  depth=r.get("depth"), seed=r.get("seed"), timeout=7200, heap="6g") for r in runs]
     jobs.append(dict(module="C16MultiformMachine", cfg=mm_cfg(2, export="none"), name=WD + "/mm_cov", coverage=True))
-    results = tlc.run_many(jobs, max_parallel=4)
+    ex = cf.ThreadPoolExecutor(max_workers=1)
+    return runs, ex.submit(tlc.run_many, jobs, 3)
+
+
+def machine_finish(chk, handle):
+    runs, fut = handle
+    results = fut.result()
     cov = results[-1]
     if not cov.ok:
         raise tlc.TLCError("C16MultiformMachine (coverage run) failed: %s" % cov.out[-1500:])
@@ -930,6 +941,7 @@ def run(chk):
     if os.environ.get("VERIF_NO_KNOWN"):          # development aid for mutation experiments on a tree with the proposed fixes applied
         chk.known = []
     parts = os.environ.get("C16_PARTS", "laws,heap,multiform,collapse,machine").split(",")     # development aid
+    handle = machine_start(chk) if "machine" in parts else None
     if "laws" in parts:
         run_laws(chk)
     if "heap" in parts:
@@ -938,8 +950,8 @@ def run(chk):
         run_multiform(chk, rng)
     if "collapse" in parts:
         run_collapse(chk, rng)
-    if "machine" in parts:
-        run_machine(chk)
+    if handle is not None:
+        machine_finish(chk, handle)
     chk.cov["rule"] = ("S: ring laws + product-is-operator-product on the enumerated value domain. G: BFS of all histories "
                        "(length 1 over all class/annotation pairs, length 2 on shared operands, length 3 via distinct heaps in "
                        "thorough) and -simulate chains of length 10 of C16OperatorHeap replayed on the real classes, all names "
